@@ -440,6 +440,10 @@ fn string_laws(ctx: &Ctx, sink: &mut Sink, i: u64) {
     }
     l.no_crash("string-slice-odd", "slice(S, 1, 0)", &[]);
     l.no_crash("string-slice-odd", "slice(S, 0, 99)", &[]);
+    // a string spread into a record is the list of its characters spread into a record (same keys, same values, same order)
+    l.expect_true(&format!("string-record-spread-is-character-list-spread {}", cls), "{...S} .== {...[...S]}");
+    l.expect_true(&format!("string-record-spread-keys-in-order {}", cls), "keys({...S}) .== keys({...[...S]})");
+    l.expect(&format!("string-record-spread-values-are-characters {}", cls), "values({...S})", &list(chars.iter().map(|c| s(c)).collect()));
     // bounds past the end, equal bounds, reversed bounds: whatever slice does with them, it does the same to a string as to
     // the list of that string's characters, and a slice that is returned has exactly end - start characters
     for (x, y) in [(0, nch + 1), (0, nch + 5), (nch, nch + 1), (nch + 2, nch + 4), (nch / 2, nch + 3), (nch, nch), (nch + 1, nch + 1), (0, 0), (1, 0), (nch + 3, nch)] {
